@@ -43,24 +43,24 @@ CFG = {
 }
 # probes / counters that must have been observed for the run to count (property -> {counter: minimum})
 REQUIRED = {
-    "C07": {"oracle_valid": 1000, "oracle_invalid": 1000, "flags_invalid": 100, "accepted_construct_backref": 50, "accepted_construct_class": 100, "accepted_construct_class_subtraction": 20, "accepted_construct_negated_class": 50, "accepted_construct_prop": 50, "accepted_construct_esc": 50, "accepted_construct_repeat_reluctant": 100, "accepted_construct_repeat_greedy": 100, "accepted_construct_ncgroup": 100, "accepted_construct_group": 100, "accepted_construct_alt": 100, "accepted_construct_bol": 50, "accepted_construct_eol": 50, "accepted_construct_dot": 50, "accepted_construct_quantified_anchor": 10},
-    "C08": {"program_has_prefix": 100, "program_has_initial_class": 100, "program_has_min_length": 100, "program_has_preconditions": 100, "program_has_bol_fast_path": 100, "op_UnambiguousRepeat": 100, "op_GreedyFixed": 100, "op_ReluctantFixed": 100, "op_Repeat": 100, "fact_invariants_checked": 1000},
+    "C07": {"hyphen_edge_oracle_valid": 1000, "oracle_valid": 1000, "oracle_invalid": 1000, "flags_invalid": 100, "accepted_construct_backref": 50, "accepted_construct_class": 100, "accepted_construct_class_subtraction": 20, "accepted_construct_negated_class": 50, "accepted_construct_prop": 50, "accepted_construct_esc": 50, "accepted_construct_repeat_reluctant": 100, "accepted_construct_repeat_greedy": 100, "accepted_construct_ncgroup": 100, "accepted_construct_group": 100, "accepted_construct_alt": 100, "accepted_construct_bol": 50, "accepted_construct_eol": 50, "accepted_construct_dot": 50, "accepted_construct_quantified_anchor": 10},
+    "C08": {"irregular_case_letters_compared": 1000, "program_has_prefix": 100, "program_has_initial_class": 100, "program_has_min_length": 100, "program_has_preconditions": 100, "program_has_bol_fast_path": 100, "op_UnambiguousRepeat": 100, "op_GreedyFixed": 100, "op_ReluctantFixed": 100, "op_Repeat": 100, "fact_invariants_checked": 1000},
     "C02": {"self_scan_with_matches": 1000, "self_scan_match_not_at_offset_0": 200, "strict_domain": 1000, "weak_domain": 100, "cases_with_several_matches": 500},
     "C03": {"line_anchored_several_matches": 200, "groups_judged": 1000, "groups_nonempty_capture_seen": 200, "analyze_presence_judged": 200, "analyze_vs_replace_consistency_checked": 1000},
     "C04": {"adjacent_matches": 200, "match_at_offset_0": 200, "match_at_end": 200, "cases_without_match": 200, "xsd_dialect": 200},
     "C12": {"anchor_in_alternative": 500, "flag_insensitivity_checked": 500, "oracle_true": 500, "oracle_false": 500},
-    "C13": {"literal_present_several_times": 100, "literal_absent": 100, "extra_flag_ignored_checked": 500},
+    "C13": {"literal_self_match_checked": 1000, "literal_present_several_times": 100, "literal_absent": 100, "extra_flag_ignored_checked": 500},
     "C15": {"group_participation_judged_by_reference": 500, "replacement_valid": 200, "replacement_invalid": 200, "more_than_9_groups": 100, "input_several_matches": 100, "input_no_match": 100},
-    "C16": {"oracle_nullable": 500, "oracle_not_nullable": 500, "literal_patterns": 50},
+    "C16": {"xsd_oracle_nullable": 200, "xsd_oracle_not_nullable": 200, "oracle_nullable": 500, "oracle_not_nullable": 500, "literal_patterns": 50},
     "C17": {"flag_gate": 50, "gate_or_invalid": 500, "xsd_accepted_valid": 500, "dialects_compared": 500, "literal_anchor_checked": 100},
     "C18": {"cross_object_probes": 50, "block_table_init_races": 1, "iterators_kept_alive_across_calls": 100, "overlapping_call_pairs": 1, "fresh_results_cross_checked_with_reference": 100},
-    "C19": {"with_backref": 1000, "groups_judged": 500},
+    "C19": {"literal_twin_matches": 500, "literal_twin_does_not_match": 200, "with_backref": 1000, "groups_judged": 500},
     "C20": {"spans_compared": 500},
     "C11": {"literal_case_blind_matches": 500, "literal_oracle_false": 200, "case_swap_twins": 1000, "monotonic_checked": 200, "oracle_true": 500, "oracle_false": 500},
     "C06": {"inside_bounds": 1000, "longer_inputs_for_zero_width_runs": 1000, "zero_width_iterations_observed": 1000},
-    "C14": {"whitespace_inserted": 1000, "base_rejected": 100},
-    "C09": {"membership_tests": 100000, "quantified_equivalence_checked": 100, "raw_hyphen_at_group_edge": 200},
-    "C10": {"membership_tests": 100000, "unknown_names_rejected": 100, "identity_characters": 1000, "escape_pairs_in_one_class_checked": 100},
+    "C14": {"xsd_dialect_whitespace_inserted": 300, "whitespace_inserted": 1000, "base_rejected": 100},
+    "C09": {"unanchored_class_checked": 500, "membership_tests": 100000, "quantified_equivalence_checked": 100, "raw_hyphen_at_group_edge": 200},
+    "C10": {"unanchored_escape_checked": 500, "membership_tests": 100000, "unknown_names_rejected": 100, "identity_characters": 1000, "escape_pairs_in_one_class_checked": 100},
     "C05": {"compiled_ok": 1000, "compile_rejected": 1000, "structured_cases": 1000},
     "C01": {"probe_prefix_scan": 100, "probe_initial_class": 100, "probe_min_length_cut": 100, "probe_precondition_reject": 100, "probe_bol_single_line": 100, "probe_bol_multi_line": 100, "oracle_true": 500, "oracle_false": 500},
 }
